@@ -1,15 +1,22 @@
 (** C32 — the watermark never passes an unfinished index.
 
-    Proved for all schedules: the mark never decreases (C32_monotone).
-    Safety ("the mark stays below every index begun in order and not finished")
-    is refuted twice by concrete schedules: for the order of Begin before the
-    repair (C32_unfixed_refuted, F6, repaired) and for the code as it is now
-    when a window rebuild races with a slot update on the old window
-    (C32_safe_refuted, F28, known finding C32-F28).  The safety statement
-    restricted to runs without a rebuild is NOT proved in this development;
-    it is only checked on the executions of the correspondence run. *)
+    Proved for all schedules and any number of threads:
+    - C32_monotone: the mark never decreases (both Begin orders, rebuilds included);
+    - C32_safe_no_rebuild: for the repaired Begin order, as long as no window
+      rebuild has been stored and no Done has decremented without a counted
+      Begin of the same thread and index ([Good]), the mark is below every index
+      begun in order (first write while lastIndex was below it) whose thread has
+      not yet issued the matching Done;
+    - C32_wait: a WaitForMark i that returned saw the mark at or above i
+      (rebuilds included); C32_wait_done: hence, under [Good], every in-order
+      index at or below i is done.
+    Refuted by concrete schedules: the Begin order before the repair
+    (C32_unfixed_refuted, F6, repaired) and the code as it is now when a window
+    rebuild races with a slot update on the old window (C32_safe_refuted, F28,
+    known finding C32-F28) — which is why C32_safe_no_rebuild carries [Good]. *)
 From Coq Require Import List NArith.
-From NoKV Require Import Base.Sched Model.Watermark Spec.WatermarkSpec Proofs.WatermarkProofs.
+From NoKV Require Import Base.Sched Model.Watermark Spec.WatermarkSpec Proofs.WatermarkProofs
+  Proofs.WatermarkSafeProofs Proofs.WatermarkWaitProofs.
 Import ListNotations.
 Local Open Scope N_scope.
 
@@ -20,6 +27,23 @@ Print Assumptions C32_monotone.
 Theorem C32_monotone_run : forall fixed g sched, g_done g <= g_done (run (tstep fixed) g sched).
 Proof. exact watermark_monotone_run. Qed.
 Print Assumptions C32_monotone_run.
+
+Theorem C32_safe_no_rebuild : forall size progs g,
+  reachable (tstep true) (init size progs) g -> Good g ->
+  forall i t, In (i, t) (g_tracked g) -> g_done g < i.
+Proof. exact watermark_safe_no_rebuild. Qed.
+Print Assumptions C32_safe_no_rebuild.
+
+Theorem C32_wait : forall size progs g,
+  reachable (tstep true) (init size progs) g -> Forall (fun i => i <= g_done g) (g_waitret g).
+Proof. exact watermark_wait. Qed.
+Print Assumptions C32_wait.
+
+Theorem C32_wait_done : forall size progs g,
+  reachable (tstep true) (init size progs) g -> Good g ->
+  forall i, In i (g_waitret g) -> forall j t, In (j, t) (g_tracked g) -> i < j.
+Proof. exact watermark_wait_done. Qed.
+Print Assumptions C32_wait_done.
 
 (** before the repair: Begin published lastIndex before counting the slot *)
 Theorem C32_unfixed_refuted :
